@@ -911,3 +911,189 @@ EXPECTED_DISPATCHER_SHAPE = {'add_task': 'with(lock){ R:queue append() R:queue_c
 # I/O thread's unlocked _flush_some sent the same 151 bytes.  On the repaired tree the same choices are clean
 # (the I/O thread's try-acquire fails); the check re-runs them every time as a regression.
 F18_CHOICES = [0, 0, 0, 0, 2, 2, 1, 1, 1, 0, 0, 0, 0, 0, 0, 0, 0, 0, 0, 0, 0, 0, 0, 0, 0, 0, 0, 0, 0, 0, 0, 0, 0, 0, 0, 0, 0, 1, 0, 0, 1, 1, 1, 1, 1, 1, 1, 1, 1, 1, 1, 1, 1, 1, 0, 0, 0, 0, 0, 0, 0, 0, 0, 0, 0, 0, 0, 0, 0, 0, 0, 0, 0, 0, 0, 0, 0, 0, 1, 1, 1, 1, 1, 1, 1, 1, 1, 1, 1, 1, 1, 1, 1, 1, 1, 1, 0, 0, 0, 0, 0, 0, 0, 0, 0, 0, 0, 0, 0, 0, 0, 0, 0, 0, 0, 0, 0, 0, 0, 0, 0, 0, 0, 0, 1, 1, 0, 0, 0, 0, 0, 0, 0, 0, 0, 0, 0, 0, 1, 1, 1, 1, 1, 1, 1, 1, 1, 1, 1, 1, 0, 0, 0, 0, 0, 0]
+
+
+# ----------------------------------------------------------------------------
+# Output buffers that CHANGE REPRESENTATION under partial sends (added for the second wave of seeded
+# changes: C04-w2m2 breaks C04_wire through buffers.FileBasedBuffer.__init__'s migration copy).
+#
+# An OverflowableBuffer goes  bytes -> BytesIO -> temporary file  as it grows (STRBUF_LIMIT, adj.outbuf_overflow)
+# and HTTPChannel.write_soon rotates to a fresh buffer at adj.outbuf_high_watermark.  With the default limits
+# (8192 / 1 MiB / 16 MiB) none of the scenarios above ever leaves the bytes stage.  A BufScenario shrinks
+# the three limits (STRBUF_LIMIT is a module constant of waitress.buffers: it is replaced for the duration
+# of the run and restored) and uses send plans that accept a few bytes and then nothing, so that the READ
+# POSITION of a buffer is non-zero when it migrates.  The oracle is unchanged (the lone response under the
+# default limits): the wire monitor then sees dropped / duplicated / reordered bytes.
+#
+# Model/ChanPipe.v abstracts a buffer as a length and does not model the high-watermark wait (ASSUMPTIONS
+# of checks/C04.py: back-pressure is C12's), so these runs are judged by the MONITOR ONLY; they are not
+# replayed on the extracted model.
+
+
+class BufScenario(Scenario):
+    def __init__(self, reqs, cuts=(), send_plan=(), lookahead=0, n_workers=1, send_bytes=1, sndbuf=1 << 16,
+                 eof=False, max_steps=2500, strbuf_limit=64, overflow=200, high_watermark=16777216, granularity="locks"):
+        Scenario.__init__(self, reqs, cuts, send_plan, lookahead, n_workers, send_bytes, sndbuf, eof, max_steps)
+        self.strbuf_limit = strbuf_limit
+        self.overflow = overflow
+        self.high_watermark = high_watermark
+        self.granularity = granularity
+
+    def to_json(self):
+        d = Scenario.to_json(self)
+        d["buf"] = {"strbuf_limit": self.strbuf_limit, "overflow": self.overflow, "high_watermark": self.high_watermark,
+                    "granularity": self.granularity}
+        return d
+
+    @staticmethod
+    def from_json(d):
+        b = d["buf"]
+        return BufScenario([Req.from_json(r) for r in d["reqs"]], d["cuts"], d["send_plan"], d["lookahead"], d["n_workers"],
+                           d["send_bytes"], d["sndbuf"], d["eof"], d.get("max_steps", 2500), b["strbuf_limit"], b["overflow"],
+                           b["high_watermark"], b.get("granularity", "locks"))
+
+
+class FairPolicy:
+    """The I/O thread busy-polls while a worker holds outbuf_lock or while the kernel accepts nothing; a
+    policy that keeps preferring it never lets anybody else run (an unfair schedule, never quiescent).
+    Lets the inner policy decide unless the chosen thread went through `spin` select() calls in a row
+    with nobody else running in between although somebody else is enabled: then the next enabled thread
+    runs one step.  The decisions are recorded in Scheduler.choices as always: replay is exact."""
+
+    def __init__(self, inner=None, spin=3):
+        self.inner = inner
+        self.spin = spin
+
+    def __call__(self, sched, enabled, cont):
+        idx = (cont if cont is not None else 0) if self.inner is None else self.inner(sched, enabled, cont) % len(enabled)
+        if len(enabled) > 1:
+            name = enabled[idx].name
+            n = 0
+            ev = sched.events
+            for k in range(len(ev) - 1, max(-1, len(ev) - 400), -1):
+                if ev[k][0] != name:
+                    break
+                if ev[k][1] == "select":
+                    n += 1
+                    if n >= self.spin:
+                        return (idx + 1) % len(enabled)
+        return idx
+
+
+class BufWorld(PipeWorld):
+    """PipeWorld with small buffer limits; records every change of representation of an output buffer
+    (kind, read position of the old file, unread bytes) in self.migrations."""
+
+    def __init__(self, scn, schedule=(), policy=None):
+        PipeWorld.__init__(self, scn, schedule=schedule, policy=FairPolicy(policy), granularity=scn.granularity, snapshots=True)
+        self.adj_kw.update({"outbuf_overflow": scn.overflow, "outbuf_high_watermark": scn.high_watermark})
+        self.migrations = []
+        self.rotations = 0
+
+    def run(self):
+        import waitress.buffers as wbuffers
+        import waitress.channel as wchannel
+        from harness.fake_threading import patched
+        world = self
+
+        class CountingBuffer(wbuffers.OverflowableBuffer):
+            def __init__(self, overflow):
+                wbuffers.OverflowableBuffer.__init__(self, overflow)
+                world.rotations += 1
+
+            def _note(self, kind):
+                old = self.buf
+                pos = None
+                if old is not None:
+                    try:
+                        pos = old.getfile().tell()
+                    except Exception:
+                        pos = None
+                world.migrations.append((kind, pos, old.__len__() if old is not None else len(self.strbuf)))
+
+            def _set_small_buffer(self):
+                self._note("bytes->BytesIO" if self.buf is None else "file->BytesIO")
+                return wbuffers.OverflowableBuffer._set_small_buffer(self)
+
+            def _set_large_buffer(self):
+                self._note("bytes->tempfile" if self.buf is None else "BytesIO->tempfile")
+                return wbuffers.OverflowableBuffer._set_large_buffer(self)
+
+        with patched(wbuffers, STRBUF_LIMIT=self.scn.strbuf_limit), patched(wchannel, OverflowableBuffer=CountingBuffer):
+            return PipeWorld.run(self)
+
+
+def buf_monitor(world):
+    """monitor() plus: the channel never calls send() with an empty chunk (a buffer that claims unsent bytes
+    but yields none has lost them), and a run that never becomes quiescent although the schedule is fair
+    and the client reads is a stalled connection."""
+    bad = monitor(world)
+    ev = world.sched.events
+    empty = [i for i, e in enumerate(ev) if e[1] == "sock_send" and e[2] == 0]
+    if empty:
+        bad.append(("empty-send", "C04_wire: send() called %d times with an EMPTY chunk while total_outbufs_len > 0: an output buffer "
+                    "reports unsent bytes that it cannot produce (bytes lost inside the buffer layer); %d bytes on the wire"
+                    % (len(empty), len(world.wire))))
+    elif world.verdict == "overrun":
+        bad.append(("stalled", "the run did not become quiescent within %d steps under a fair schedule" % world.scn.max_steps))
+    return bad
+
+
+def buf_directed():
+    """Responses of several writes that overflow a partly sent buffer."""
+    out = []
+    big = [bytes([65 + i]) * n for i, n in enumerate([50, 60, 120, 90, 40])]       # 360 bytes in 5 writes
+    a = Req("/a", chunks=big)
+    b = Req("/b", chunks=[b"small"])
+    # the head (> STRBUF_LIMIT) puts the buffer in its BytesIO stage; 7 bytes leave; nothing more is accepted while
+    # the task appends up to outbuf_overflow: BytesIO -> tempfile with read position 7
+    out.append(("buf-partial-then-overflow", BufScenario([a, b], send_plan=[7] + [0] * 6)))
+    out.append(("buf-partial-then-overflow-2w", BufScenario([a, b], send_plan=[7] + [0] * 6, n_workers=2, lookahead=1)))
+    out.append(("buf-overflow-unsent", BufScenario([a, b], send_plan=[0] * 7)))                      # read position 0 (the case unit tests build)
+    out.append(("buf-trickle", BufScenario([a, b], send_plan=[3, 0, 5, 0, 11, 0, 2, 0, 30, 0], sndbuf=64)))
+    out.append(("buf-rotate", BufScenario([a, b], send_plan=[7] + [0] * 4, high_watermark=150, sndbuf=64)))
+    out.append(("buf-rotate-backpressure", BufScenario([a, b], send_plan=[9, 0, 0, 4, 0], high_watermark=100, overflow=80, sndbuf=32)))
+    c = Req("/c", chunks=[b"c" * 300, b"d" * 10])        # one write beyond outbuf_overflow: bytes -> tempfile directly
+    out.append(("buf-one-big-write", BufScenario([c, b], send_plan=[5, 0, 0])))
+    out.append(("buf-big-strbuf", BufScenario([a, b], send_plan=[7] + [0] * 6, strbuf_limit=8192, overflow=250)))  # bytes stage -> tempfile
+    out.append(("buf-eof", BufScenario([a, b], send_plan=[7] + [0] * 6, eof=True)))
+    # three responses of several writes queued in three buffers (service() forces a fresh buffer per request) before
+    # anything leaves: appends must go to the LAST buffer, the flush must take them in order
+    q = [Req("/" + ch, chunks=[ch.encode() * 30, ch.upper().encode() * 45, ch.encode() * 20]) for ch in "xyz"]
+    out.append(("buf-three-queued", BufScenario(q, send_plan=[0] * 14, lookahead=2)))
+    out.append(("buf-three-queued-trickle", BufScenario(q, send_plan=[4] + [0] * 9 + [9, 0, 0, 13], lookahead=2, n_workers=2, sndbuf=64, overflow=120)))
+    e = Req("/e", expect=True, body=b"12345", chunks=big)
+    out.append(("buf-expect", BufScenario([b, e], cuts=[len(b.bytes()) + len(e.head())], send_plan=[20, 0, 6, 0, 0, 0], lookahead=1, n_workers=2)))
+    return out
+
+
+def gen_buf_scenario(rng):
+    n = rng.choice([1, 2, 2, 3, 3, 4])
+    reqs = []
+    for i in range(n):
+        path = "/" + "abcd"[i]
+        if i == 0 or rng.random() < 0.5:
+            chunks = [bytes([48 + rng.randrange(70)]) * rng.choice([1, 20, 50, 64, 90, 130, 200, 333]) for _ in range(rng.randint(2, 7))]
+        else:
+            chunks = [path.encode() * rng.randint(1, 5)]
+        if rng.random() < 0.15:
+            reqs.append(Req(path, expect=True, body=b"x" * rng.randint(1, 6), chunks=chunks))
+        else:
+            reqs.append(Req(path, chunks=chunks, close=rng.random() < 0.08))
+    cuts = []
+    pos = 0
+    for r in reqs:
+        if r.expect and r.body:
+            cuts.append(pos + len(r.head()))
+        pos += len(r.bytes())
+    plan = []
+    for _ in range(rng.randint(2, 12)):
+        k = rng.random()
+        plan.append(0 if k < 0.55 else rng.choice([1, 3, 7, 20, 64, 150]) if k < 0.95 else (1 << 20))
+    if rng.random() < 0.7:
+        plan[0] = rng.choice([1, 3, 7, 20])          # something leaves first: the read position is non-zero
+    return BufScenario(reqs, cuts=cuts, send_plan=plan, lookahead=rng.choice([0, 1, 2]), n_workers=rng.choice([1, 2]),
+                       send_bytes=rng.choice([1, 1, 1, 100]), sndbuf=rng.choice([32, 64, 200, 1 << 16]), eof=rng.random() < 0.1,
+                       strbuf_limit=rng.choice([16, 64, 64, 256, 8192]), overflow=rng.choice([80, 200, 200, 500]),
+                       high_watermark=rng.choice([100, 300, 1000, 16777216, 16777216]),
+                       granularity=rng.choice(["locks", "locks", "locks", "attrs"]))
